@@ -5,7 +5,7 @@ from __future__ import annotations
 import ast
 
 from ..flow import FlowPolicy, exits, run_flow
-from ..repo import AnalysisError, body_walk, call_name, dotted, norm, short
+from ..repo import AnalysisError, body_walk, call_name, dotted, enclosing_func, norm, short
 
 LEVEL_TEXT = (
     "decides release/ownership clauses of C09, not garbage-collection timing: every owner class releases in its stop "
@@ -99,13 +99,22 @@ def kinds_released(fn, nodes=None):
         name = call_name(n) or ""
         if name in REL:
             kinds.add(REL[name])
+        from ..repo import expand_locals
+        efn = enclosing_func(n)
+
+        def _slot(e):
+            # (a handle or task read into a local first - `task = self._cycle_task` - is still the stored one)
+            return norm(expand_locals(efn, e)) if efn is not None else norm(e)
         if name.endswith(".cancel") and name.count(".") >= 1:
             kinds.add(f"task stored in {name[:-7]}")
+            kinds.add(f"task stored in {_slot(n.func.value)}")
         if name in ("Function.reaper_cancel",) and n.args:
             kinds.add(f"task stored in {norm(n.args[0])}")
+            kinds.add(f"task stored in {_slot(n.args[0])}")
         # calling a stored handle: self.x() or cls.notify_remove[k]()
-        if isinstance(n.func, (ast.Attribute, ast.Subscript)) and not n.args and not n.keywords:
+        if isinstance(n.func, (ast.Attribute, ast.Subscript, ast.Name)) and not n.args and not n.keywords:
             kinds.add(f"handle stored in {norm(n.func)}")
+            kinds.add(f"handle stored in {_slot(n.func)}")
     return kinds
 
 
